@@ -188,7 +188,7 @@ def failing_modules(log):
 
 def c09(ck):
     rng = random.Random(ck.seed)
-    quick = ck.tier == "quick"
+    quick = ck.quick
     model_ok, ok = prep(ck, "C09.v", ("h_gen",))
     if not ok:
         return
@@ -388,7 +388,7 @@ def c08_corpora(rng, quick):
 def c08(ck):
     import c08gen
     rng = random.Random(ck.seed)
-    quick = ck.tier == "quick"
+    quick = ck.quick
     model_ok, ok = prep(ck, "C08.v", ("h_gen",))
     if not ok:
         return
